@@ -28,6 +28,8 @@ TRUSTED = [
     'not modelled: expat, the text-template regular expressions, Suite compilation, directive evaluation '
     '(templates are abstracted to sequences of text / expression / code-block / include items)',
     'the translator harness/extract_exec.py (behavioural probes of every class x construction way x spelling)',
+    'the translator harness/extract_execshape.py (every placement of a code block x every way a template object comes '
+    'into being, flag off and on; the walker of the object graph and the skeleton of the streams)',
 ]
 ASSUMPTIONS = [
     'a configuration is "disabled" for a template when the flag that governs its instantiation is off: the '
@@ -444,6 +446,7 @@ def compare_reach(pairs, res):
             continue
         lines.append(reach_line(case, ch))
         keep.append((case, obs))
+    compare_shape_reach(keep, res)
     for (case, obs), ans in zip(keep, proto.run_lines(lines)):
         res.streams['reach'] = res.streams.get('reach', 0) + 1
         try:
@@ -456,6 +459,142 @@ def compare_reach(pairs, res):
         res.count('reach-verdict:' + model)
         if model != real:
             res.disagreements.append({'stream': 'reach', 'case': case, 'model': model, 'real': real})
+
+
+_SHAPE_IDX = {}
+
+
+def shape_index(syn, place):
+    """index of the translator's shape (harness/extract_execshape.py) for a placement"""
+    if not _SHAPE_IDX:
+        from harness import extract_execshape as S
+        for c in G.CLASSES:
+            for k, (name, _) in enumerate(S.shapes(c)):
+                _SHAPE_IDX[(c, name)] = k
+    return _SHAPE_IDX.get((syn, place))
+
+
+def compare_shape_reach(pairs, res):
+    """stream shape-reach: chain cases whose deepest template holds one code block at a placement the
+    translator probes; `reachRow` (the generated shape table looked up along the reach path of the
+    reachability model) vs what happened: error kind, did the block run, the governing flag"""
+    lines, keep = [], []
+    for case, obs in pairs:
+        ch = chain_of(case)
+        last = case['files'][-1] if ch is not None else None
+        if ch is None or len(case['files']) != len(ch) + 1:
+            continue
+        code = G.code_items(last)[0]
+        k = shape_index(last['syn'], code[2])
+        if k is None or any(it[3] for f in case['files'] for it in G.includes(f)):
+            continue
+        lines.append(proto.line(Atom('C14'), Atom('reachshape'), *(wire_cfg(case['cfg']) +
+                                [wire_root(case), [_cap(p) for p in ch], k])))
+        keep.append((case, obs, ch))
+    for (case, obs, ch), ans in zip(keep, proto.run_lines(lines)):
+        if ans == 'none':
+            # the way is probed for the core shapes only, or the option value is a configuration error
+            res.count('shape-reach:unprobed-or-config')
+            continue
+        res.streams['shape-reach'] = res.streams.get('shape-reach', 0) + 1
+        try:
+            row = proto.dec(ans)
+            model = {'cls': str(row[0]), 'err': str(row[1]), 'ran': row[2] == 'T'}
+            flag = row[4] == 'T'
+        except Exception:  # noqa
+            res.disagreements.append({'stream': 'shape-reach', 'case': case, 'model': 'bad-answer:' + ans[:60], 'real': None})
+            continue
+        real = {'cls': case['files'][-1]['syn'],
+                'err': {'ok': 'ok', 'TemplateSyntaxError': 'Syntax'}.get(obs['outcome'], 'other'),
+                'ran': bool(obs['sentinel'])}
+        g_root, g_inc = governing(case)
+        g = g_root if not ch else g_inc
+        res.count('shape-reach:depth%d:%s:%s' % (len(ch), 'on' if flag else 'off', model['err']))
+        res.count('shape-reach:place:' + G.code_items(case['files'][-1])[0][2])
+        if model != real or (g is not None and g != flag):
+            res.disagreements.append({'stream': 'shape-reach', 'case': case, 'model': dict(model, flag=flag),
+                                      'real': dict(real, flag=g)})
+
+
+def sk_wire(sk):
+    out = []
+    for n in sk:
+        if n[0] == 'ev':
+            out.append(Atom('V'))
+        elif n[0] == 'exec':
+            out.append(Atom('X'))
+        else:
+            out.append([Atom('S' if n[0] == 'sub' else 'I')] + sk_wire(n[1]))
+    return out
+
+
+def real_stream_facts(stream):
+    """(an EXEC event at any depth, an EXEC event at the top level, depth of the deepest EXEC event) of a
+    real template stream — computed on the events themselves, not on the skeleton"""
+    from genshi.template.base import EXEC, SUB, INCLUDE
+    flat = any(ev[0] is EXEC for ev in stream)
+
+    def depth(st):
+        d = 0
+        for ev in st or []:
+            if ev[0] is EXEC:
+                d = max(d, 1)
+            elif ev[0] is SUB:
+                x = depth(ev[1][1])
+                d = max(d, x + 1 if x else 0)
+            elif ev[0] is INCLUDE:
+                x = depth(ev[1][2])
+                d = max(d, x + 1 if x else 0)
+        return d
+    d = depth(stream)
+    return d > 0, flat, d
+
+
+def compare_skeleton(rng, n, res):
+    """stream skeleton: random templates (random placements of code blocks, plain items, several per
+    template) are constructed for real with execution allowed, prepared, and the skeleton of their
+    stream goes to the model's recursive definitions (`hasExecL`, `flatExec`, `execDepthL`); compared with
+    the same facts computed on the real events and with a generic walk of the object graph for Suites"""
+    from harness import extract_execshape as S
+    classes = _classes()
+    lines, keep = [], []
+    for _ in range(n):
+        syn = rng.choice(['markup', 'markup', 'newtext'])
+        places = G.PLACES_MARKUP if syn == 'markup' else G.PLACES_TEXT
+        items = []
+        for j in range(rng.randrange(0, 5)):
+            r = rng.random()
+            if r < 0.55:
+                items.append(['code', 10 + j, rng.choice(places)])
+            elif r < 0.8:
+                items.append(['text', 10 + j])
+            else:
+                items.append(['expr', 10 + j])
+        src = G.RENDER[syn](items)
+        prepared = rng.random() < 0.7
+        try:
+            t = classes[syn](src, allow_exec=True)
+            stream = list(t.stream) if prepared else list(vars(t)['_stream'])
+            tm, suites = S.walk([t])
+        except Exception as e:  # noqa
+            res.count('skeleton:real-error:' + type(e).__name__)
+            continue
+        sk = S.skeleton(stream)
+        lines.append(proto.line(Atom('C14'), Atom('objskel'), sk_wire(sk)))
+        keep.append(({'skeleton': syn, 'items': items, 'prepared': prepared}, real_stream_facts(stream), suites > 0))
+    for (case, real, suite), ans in zip(keep, proto.run_lines(lines)):
+        res.streams['skeleton'] = res.streams.get('skeleton', 0) + 1
+        try:
+            m = proto.dec(ans)
+            model = [m[0] == 'T', m[1] == 'T', int(m[2])]
+        except Exception:  # noqa
+            model = 'bad-answer:' + ans[:60]
+        res.count('skeleton:depth%d' % real[2])
+        if real[0] and not real[1]:
+            res.count('skeleton:exec-not-at-top-level')
+        if model != list(real) or real[0] != suite:
+            res.disagreements.append({'stream': 'skeleton', 'case': case, 'model': model,
+                                      'real': {'facts': list(real), 'suite-in-object-graph': suite}})
 
 
 def render_line(case):
@@ -858,6 +997,7 @@ def shard(arg):
         compare_render(pairs, res)
         compare_lru(pairs, res)
         compare_parse(rng, max(20, nrandom), res)
+        compare_skeleton(rng, max(40, nrandom // 2), res)
         if idx == 0:
             compare_parseopt(res)
     finally:
